@@ -23,10 +23,10 @@ PERIOD, LIFE = 0.5, 1.0
 
 
 class Reconnect(Scenario):
-    def __init__(self, cause, trigger, rounds=1, alts=(), modes=('Q',)):
+    def __init__(self, cause, trigger, rounds=1, alts=(), modes=('Q',), lease=False):
         self.name = 'reconnect'
-        self.cause, self.trigger, self.rounds = cause, trigger, rounds
-        self.params = {'cause': cause, 'trigger': trigger, 'rounds': rounds, 'alts': list(alts), 'modes': list(modes)}
+        self.cause, self.trigger, self.rounds, self.lease = cause, trigger, rounds, lease
+        self.params = {'cause': cause, 'trigger': trigger, 'rounds': rounds, 'alts': list(alts), 'modes': list(modes), 'lease': lease}
         self.world_kw = {'alts': alts, 'modes': modes, 'fault_budget': rounds if cause != 'healthy' else 0, 'horizon': 2.0 * rounds + 1.6, 'step_cap': 900}
 
     def setup(self, w):
@@ -47,7 +47,12 @@ class Reconnect(Scenario):
             return {'request_response': rr, 'request_stream': lambda h, p: RecPublisher(w, h.ep, 'pub%d' % i)}
 
         for i, c in enumerate(conns):
-            start_server(w, c, s_beh(i))
+            if self.lease:
+                # the first server never grants a lease (requests stay parked in the client); later servers grant 5 requests
+                from rsocket.lease import SingleLeasePublisher, LeasePublisher
+                start_server(w, c, s_beh(i), lease_publisher=LeasePublisher() if i == 0 else SingleLeasePublisher(maximum_request_count=5))
+            else:
+                start_server(w, c, s_beh(i))
         trig = self.trigger
 
         def on_close(h, rsocket):
@@ -64,7 +69,7 @@ class Reconnect(Scenario):
                 return rsocket.reconnect()
 
         client = start_client(w, conns, {'on_close': on_close, 'on_keepalive_timeout': on_timeout},
-                              keep_alive_period=timedelta(seconds=PERIOD), max_lifetime_period=timedelta(seconds=LIFE))
+                              keep_alive_period=timedelta(seconds=PERIOD), max_lifetime_period=timedelta(seconds=LIFE), honor_lease=self.lease)
         w.objs['client'] = client
         w.fault_kinds = (self.cause,) if self.cause != 'healthy' else ()
         w.cut_points = 'boundaries'
@@ -157,6 +162,17 @@ class Reconnect(Scenario):
                     sub = st.get('sub')
                     if sub is not None and sub.terminal() is None:
                         out.append(('C17.pending-failed', 'C17.pending-failed | %s | subscriber' % ctx, 'stream pending on the old connection was never failed: %s' % [x[0] for x in sub.signals]))
+        # nothing of the old connection may be replayed on a new one
+        issued_at = next((i for i, ev in enumerate(log) if ev[0] == 'act' and ev[1] == 'req'), None)
+        issued_on = (sum(1 for ev in log[:issued_at] if ev[0] == 'provide') - 1) if issued_at is not None else None
+        for k in range(1, len(conns)):
+            if issued_on is None or issued_on >= k:
+                continue  # the application issued these requests on this (or a later) connection
+            stale = [ev[4] for ev in log if ev[0] == 'api' and ev[1] == conns[k].sname and ev[2] == 'handler' and ev[3] in ('request_response', 'request_stream')
+                     and not bytes(ev[4][0]).startswith(b'probe')]
+            if stale:
+                out.append(('C17.fresh-connection', 'C17.fresh-connection | %s | stale-request-replayed%s' % (tag, ' | lease' if self.lease else ''),
+                            'server %d was asked to serve requests of an earlier connection: %s' % (k, stale)))
         for msg, exc, txt in w.loop.read_exc_log():
             out.append(('C17.no-unhandled-exception', 'C17.no-unhandled-exception | %s | %s' % (tag, exc), '%s: %s' % (msg, txt)))
         return out
@@ -193,6 +209,10 @@ def make_units(tier):
             K = 16
             for k in range(K):
                 units.append({'cause': cause, 'trigger': trig, 'rounds': 2, 'bound': 2, 'shard': [k, K], 'alts': []})
+    for cause, trig in (('eof', 'on_close'), ('healthy', 'free'), ('mute', 'on_timeout')):
+        K = 8
+        for k in range(K):
+            units.append({'cause': cause, 'trigger': trig, 'rounds': 1, 'bound': 1, 'shard': [k, K], 'alts': [], 'lease': True})
     if tier == 'thorough':
         for cause, trig in (('healthy', 'free'),):
             K = 32
@@ -206,7 +226,7 @@ def bounds(tier):
 
 
 def scenario_of(unit):
-    return Reconnect(unit['cause'], unit['trigger'], unit['rounds'], alts=tuple(unit['alts']))
+    return Reconnect(unit['cause'], unit['trigger'], unit['rounds'], alts=tuple(unit['alts']), lease=unit.get('lease', False))
 
 
 def run_unit(unit, part):
@@ -214,7 +234,7 @@ def run_unit(unit, part):
 
 
 def scenario_from(name, params):
-    return Reconnect(params['cause'], params['trigger'], params['rounds'], tuple(params['alts']), tuple(params['modes']))
+    return Reconnect(params['cause'], params['trigger'], params['rounds'], tuple(params['alts']), tuple(params['modes']), params.get('lease', False))
 
 
 def replay(rec):
